@@ -102,7 +102,7 @@ def conservation(case):
         scf = sc if prec == "double" else max(sc, float(np.max(np.abs(flx[k]))))
         e = abs(float(flx[k].mean()) - qm) / scf
         resid[f"mean_flux_{prec}"] = max(resid.get(f"mean_flux_{prec}", 0), e)
-        if e > (EX[prec] if prec == "double" else 1e-5):
+        if not e <= (EX[prec] if prec == "double" else 1e-5):
             viol.append({"what": "mean_flux_not_conserved", "level": L, "rel": e, "precision": prec, "setup": desc, "analytic": analytic})
         # (ii)
         R = (bg - float(conc[k].mean())) / qm
@@ -119,7 +119,7 @@ def conservation(case):
             ex = (z[L] - z[0]) / Kz[0]
             e = abs(R - ex) / (Rfull + (abs(bg) + float(np.max(np.abs(conc[k] - bg)))) / abs(qm))
             resid[f"R_constKz_{prec}"] = max(resid.get(f"R_constKz_{prec}", 0), e)
-            if e > EX[prec]:
+            if not e <= EX[prec]:
                 viol.append({"what": "mean_concentration_resistance_constant_Kz", "level": L, "R": R, "expected": ex, "precision": prec,
                              "setup": desc, "analytic": analytic})
     # (iii)
@@ -210,7 +210,7 @@ def halo_equiv(case):
             key = f"halo_vs_padcrop_{mode}_{prec}"
             resid[key] = max(resid.get(key, 0), e)
             # not the same arithmetic: the enlarged domain's dx differs from the original by an ulp, amplified by e^G
-            if e > solve.tol(prec, St["G"], base=EX[prec], cr=St["cr"]):
+            if not e <= solve.tol(prec, St["G"], base=EX[prec], cr=St["cr"]):
                 viol.append({"what": "halo_not_equivalent_to_pad_and_crop", "mode": mode, "field": nm, "rel": e, "precision": prec,
                              "meas_pt": mp, "levels": levels, "setup": desc, "analytic": analytic})
     b = {f"halo:{St['halo_class']}": 1, f"prec:{prec}": 1, f"modes:{St['mode_class']}": 1,
